@@ -1,6 +1,7 @@
 import B6.Driver.Common
 import B6.Model.Records
 import B6.Model.RecordsTokenMap
+import B6.Model.RecordsRaw
 /-!
 Driver for C11 — every compact record kind through its codec.
 
@@ -12,9 +13,14 @@ Go bytes; `none` must coincide with a Go panic), unmarshals *the Go bytes* `++ r
 value and consumed count must equal the Go answer) and evaluates the property on the Go answer itself:
 decoded = encoded (`sortRefs` of it for the lists that `Marshal` sorts) — clause `roundtrip` — and
 consumed = number of marshalled bytes — clause `consumed`.  Values outside the property's domain (a mixed
-element / polygon with both halves set) are only compared with the model; member lists with a type ≥ 4 are the
-recorded finding `member-type-wide` (`propfail roundtrip class=member-type-wide` when the Go answer is the one
-the model predicts).
+element / polygon with both halves set) are only compared with the model.
+
+`mixed! p | value | rest | old` and `agm! p | value | rest | old`: the Go receiver held `old` (same notation as the
+value); the model decodes with `RefLLs.decInto old` / `AreaGeomMixed.decInto old`; the property is demanded when
+`compatible old value` (Props `…_reused_receiver_iff`), else only model = implementation.
+`trunc <kind> <params> | value` => `<hex> | r0 r1 …`: `Unmarshal` of a fresh receiver on every proper prefix (length
+0, 1, …) of the marshalled bytes, each `panic` or `<returned>/<value>`; compared with `R.decRaw` (outside the
+property: never a `propfail`).
 
 Value tokens (flat prefix notation, counts first):
   ref `tn:value` · ll `lat,lng` · refs `n ref…` · lls `n ll…` · mixed `n ref/ll…` · bits `0110…|-` · ints `n int…`
@@ -219,12 +225,42 @@ def mk {α : Type} (p : P α) (ts : List String) (marshal : α → Option Bytes)
     { marshal := marshal v, expected := render (expect v),
       decode := fun bs => (dec bs).map fun r => (render r.1, r.2), inDomain := dom v, knownClass := cls v }
 
-/-- finding `member-type-wide`: a member whose type does not fit `FeatureTypeBits` (the negation of the
-hypothesis of `members_roundtrip_partial`) -/
-def memberClass (ms : List Member) : Option String :=
-  if ms.all Member.typeOk then none else some "member-type-wide"
-
 def stripBang (k : String) : String := if k.endsWith "!" then sdropEnd k 1 else k
+
+/-- `mixed!` / `agm!`: decoding into a receiver that holds `old` (4th part of the op).  The property is demanded
+exactly when the stale halves are compatible with the value (`…_reused_receiver_iff`); otherwise the answer is
+only compared with the model (`overlay old g`). -/
+def codecReused (kind : String) (params : List String) (ts oldTs : List String) : Option Codec :=
+  match kind, params with
+  | "mixed", [p] => (u16Of p).bind fun p => (parseAll pMixed oldTs).bind fun old =>
+      mk pMixed ts (RefLLs.marshal p) id rMixed (RefLLs.decInto old p)
+        (fun g => g.all RefLL.canonical && RefLLs.compatible old g)
+  | "agm", [p] => (u16Of p).bind fun p => (parseAll pAGM oldTs).bind fun old =>
+      mk pAGM ts (AreaGeomMixed.marshal p) id rAGM (AreaGeomMixed.decInto old p)
+        (fun ps => ps.all PolygonMixed.canonical && AreaGeomMixed.compatible old ps)
+  | _, _ => none
+
+def rRaw {α : Type} (f : α → String) : Raw α → String
+  | .ok v n => toString n ++ "/" ++ f v
+  | .panic => "panic"
+
+/-- `trunc <kind> …`: the leaf decoder on every proper prefix of the marshalled bytes; the model answer -/
+def truncFor (kind : String) (params : List String) (ts : List String) : Option String :=
+  let run {α : Type} (bs : Option Bytes) (dec : Bytes → Raw α) (f : α → String) : String :=
+    match bs with
+    | none => "panic"
+    | some bs => renderHex bs ++ " | " ++ j ((prefixResults dec bs).map (rRaw f))
+  match kind, params with
+  | "ref", [p] => (u16Of p).bind fun p => (parseAll (pOf refOf) ts).map fun r =>
+      run (some (Reference.enc p r)) (Reference.decRaw p) rRef
+  | "int", [] => (parseAll (pOf i64Of) ts).map fun v =>
+      run (if (Value.int v).ok then some ((Value.int v).enc 0#16) else none) Int.decRaw rI
+  | "ll", [] => (parseAll (pOf llOf) ts).map fun l => run l.marshal LatLng.decRaw rLL
+  | "str", [] => (parseAll (pOf parseHex) ts).map fun s0 => run (Str.marshal s0) Str.decRaw renderHex
+  | "nsi", [] => (parseAll (pOf nsiOf) ts).map fun x => run (some x.enc) NamespaceIndex.decRaw rNSI
+  | "nss", [] => (parseAll (pOf nssOf) ts).map fun n => run (some n.enc) Namespaces.decRaw rNss
+  | "bits", [] => (parseAll (pOf bitsOf) ts).map fun b => run (Bits.marshal b) Bits.decRaw rBits
+  | _, _ => none
 
 def codecFor (kind : String) (params : List String) (ts : List String) : Option Codec :=
   match kind, params with
@@ -242,7 +278,7 @@ def codecFor (kind : String) (params : List String) (ts : List String) : Option 
         Tags.canonical
   | "mtags", [p] => (u16Of p).bind fun p => mk pTags ts (Tags.marshal p) id rTags (Tags.dec p)
   | "members", [p] => (u16Of p).bind fun p =>
-      mk pMembers ts (Members.marshal p) id rMembers (Members.dec p) (fun _ => true) memberClass
+      mk pMembers ts (Members.marshal p) id rMembers (Members.dec p)
   | "agr", [p] => (u16Of p).bind fun p => mk pAGR ts (AreaGeomRefs.marshal p) id rAGR (AreaGeomRefs.dec p)
   | "agl", [] => mk pAGL ts AreaGeomLL.marshal id rAGL AreaGeomLL.dec
   | "agm", [p] => (u16Of p).bind fun p =>
@@ -279,7 +315,7 @@ def codecFor (kind : String) (params : List String) (ts : List String) : Option 
   | "relation", [t, n] => (i64Of t).bind fun t => (nssOf n).bind fun n =>
       mk (do let tg ← pTags; let m ← pMembers; let r ← pRefs; pure (⟨tg, m, r⟩ : Relation)) ts (Relation.marshal t n) id
         (fun r => j [rTags r.tags, rMembers r.members, rRefs r.relations]) (Relation.dec t n)
-        (fun r => Tags.canonical r.tags) (fun r => memberClass r.members)
+        (fun r => Tags.canonical r.tags)
   | "ints", [] =>
       -- `UnmarshalDeltaCodedInts(vs, n, buffer)` is given the count by its caller: the harness passes `len(v)`
       (parseAll pInts ts).map fun v =>
@@ -339,9 +375,22 @@ def step (_ : Unit) (op impl : String) : Unit × Verdict :=
     | kind0 :: params =>
       let kind := stripBang kind0
       if kind == "tokenmap" then ((), tokenMapStep rest1 impl) else
-      match rest1 with
-      | [valueS, restS] =>
-        match codecFor kind params (words valueS), parseHex (strim restS) with
+      if kind == "trunc" then
+        match params, rest1 with
+        | k :: ps, [valueS] =>
+          match truncFor k ps (words valueS) with
+          | some m => ((), if impl == m then .ok else .diff m)
+          | none => ((), .bad)
+        | _, _ => ((), .bad)
+      else
+      let parsed : Option (Option Codec × String) :=
+        match rest1 with
+        | [valueS, restS] => some (codecFor kind params (words valueS), restS)
+        | [valueS, restS, oldS] => some (codecReused kind params (words valueS) (words oldS), restS)
+        | _ => none
+      match parsed with
+      | some (codec, restS) =>
+        match codec, parseHex (strim restS) with
         | some c, some rest =>
           let modelAnswer : String :=
             match c.marshal with
